@@ -12,7 +12,7 @@ pub mod prelude {
     pub use proto_vulcan::relation::{append, cons, empty, first, member, rest};
     pub use pvmc::conv::cmp::*;
     pub use pvmc::run::{DE, DU};
-    pub use pvmc::userrel::{cello, lasto, neqo, pairo, projo, same, twiceo, zipo};
+    pub use pvmc::userrel::{botho, cello, lasto, neqo, pairo, projo, same, twiceo, zipo};
 
     /// Goal-valued Rust functions used as *expression* clauses (`crate::prelude::eq_int(x.clone(), 5)`)
     /// and from inside `fngoal` bodies.
